@@ -871,9 +871,31 @@ func checkGuardedIndexing(p *Prog, res *Result) {
 				lenKey := "len(" + pureKey(ld) + ")"
 				// the field may be re-loaded: compare by field identity instead of by load identity
 				guarded := false
+				type sfact struct {
+					condFact
+					subst map[ssa.Value]ssa.Value
+				}
+				var facts []sfact
 				for _, cf := range dominatingFacts(b) {
+					facts = append(facts, sfact{cf, nil})
+					// a boolean helper of the package that answered yes: what holds at its positive return
+					if hf, subst := helperTrueFacts(cf, 0); len(hf) > 0 {
+						for _, h := range hf {
+							facts = append(facts, sfact{h, subst})
+						}
+					}
+				}
+				for _, sf := range facts {
+					cf, subst := sf.condFact, sf.subst
 					if cf.X == nil {
 						continue
+					}
+					up := func(v ssa.Value) ssa.Value {
+						v = resolve(v)
+						if a, ok := subst[v]; ok {
+							return resolve(a)
+						}
+						return v
 					}
 					isLenOfField := func(v ssa.Value) bool {
 						c, ok := resolve(v).(*ssa.Call)
@@ -889,7 +911,7 @@ func checkGuardedIndexing(p *Prog, res *Result) {
 							return false
 						}
 						fa2, ok := l2.X.(*ssa.FieldAddr)
-						return ok && fieldOf(fa2) == fieldOf(fa) && resolve(fa2.X) == resolve(fa.X)
+						return ok && fieldOf(fa2) == fieldOf(fa) && up(fa2.X) == resolve(fa.X)
 					}
 					_ = lenKey
 					x, y, op := cf.X, cf.Y, cf.Op
@@ -1232,7 +1254,8 @@ func checkLabelValueSanitised(p *Prog, res *Result) {
 		res.und("C20-R6", "prometheus wrapper", "-", "package not found")
 		return
 	}
-	isSanitised := func(v ssa.Value) bool {
+	var isSanitisedD func(v ssa.Value, d int) bool
+	isSanitisedD = func(v ssa.Value, d int) bool {
 		v = resolve(v)
 		if _, isC := v.(*ssa.Const); isC {
 			return true
@@ -1243,10 +1266,26 @@ func checkLabelValueSanitised(p *Prog, res *Result) {
 				if full == "strings.ToValidUTF8" || full == "bytes.ToValidUTF8" {
 					return true
 				}
+				// a sanitising helper of the wrapper: every value it returns is sanitised
+				if sc.Pkg == pp && sc.Blocks != nil && d < 3 && sc.Signature.Results().Len() == 1 {
+					n := 0
+					for _, b := range sc.Blocks {
+						if ret, ok := b.Instrs[len(b.Instrs)-1].(*ssa.Return); ok && b.Comment != "recover" {
+							for _, rv := range allCellValuesOpt(p, ret.Results[0], false) {
+								n++
+								if !isSanitisedD(rv, d+1) {
+									return false
+								}
+							}
+						}
+					}
+					return n > 0
+				}
 			}
 		}
 		return false
 	}
+	isSanitised := func(v ssa.Value) bool { return isSanitisedD(v, 0) }
 	n := 0
 	for _, f := range p.AllFuncs {
 		if f.Pkg != pp || f.Synthetic != "" {
